@@ -298,7 +298,7 @@ m("sb-capella-time", "sibling.cmp", B+"capella/execution_payload.go", "} else if
 m("sb-capella-randao", "sibling.cmp", B+"capella/execution_payload.go", "if executionPayload.PrevRandao != expectedMix {", "if executionPayload.PrevRandao != expectedMix && executionPayload.Timestamp != 0 {", "capella.ProcessExecutionPayload~bellatrix")
 m("sb-electra-bits", "sibling.cmp", B+"electra/attestation_bits.go", "\tbitLen := cb.BitLen()\n\tif bitLen != uint64(len(committee)) {\n\t\treturn 0, fmt.Errorf", "\tbitLen := cb.BitLen()\n\tif bitLen > uint64(len(committee)) {\n\t\treturn 0, fmt.Errorf", "electra.AttestationBits.SingleParticipant~phase0")
 m("sb-deneb-exit", "sibling.cmp", B+"deneb/voluntary_exit.go", "if scheduledExitEpoch != common.FAR_FUTURE_EPOCH {", "if scheduledExitEpoch == common.FAR_FUTURE_EPOCH-1 {", "deneb.ValidateVoluntaryExit~phase0")
-m("sb-delta-lost", "cmp.spec", B+"deneb/registry.go", "if uint64(len(dequeued)) > churnLimit {", "if uint64(len(dequeued)) >= churnLimit {", "deneb.ProcessEpochRegistryUpdates")
+# (sb-delta-lost, `len(dequeued) > churnLimit` -> `>=` before `dequeued = dequeued[:churnLimit]`, was removed: the two are the same function — an equivalent mutant, read as one normal form since the reslice clamp is rewritten with min at load)
 
 
 # ---- formula.spec: one arithmetic slip per tabled assignment, generated from the picks of gen_formula_table.py
